@@ -11,11 +11,19 @@ def run(rep: Report, repo: Repo, tier: str) -> None:
                "antlr4 lexer: longest match, then first rule; non-greedy loops stop at the first exit",
                "decides flow integrity and the parameters of the string surgery for the canonical doccomment form; the character-level "
                "result for non-canonical doccomments is not claimed")
-    misc_rules.rule_decode(rep, repo, "C01-R1")
-    bindings.rule_pairing(rep, repo, "C01-R2")
-    bindings.rule_doc_storage(rep, repo, "C01-R3")
-    bindings.rule_module_doc_verbatim(rep, repo, "C01-R3m")
-    render.rule_doc_rendering(rep, repo, "C01-R4")
-    writer_rules.rule_paragraph(rep, repo, "C01-R5")
-    misc_rules.rule_clean_parameters(rep, repo, "C01-R6")
-    atn_rules.rule_doc_tokens(rep, repo, "C01-R7")
+    with rep.isolated():
+        misc_rules.rule_decode(rep, repo, "C01-R1")
+    with rep.isolated():
+        bindings.rule_pairing(rep, repo, "C01-R2")
+    with rep.isolated():
+        bindings.rule_doc_storage(rep, repo, "C01-R3")
+    with rep.isolated():
+        bindings.rule_module_doc_verbatim(rep, repo, "C01-R3m")
+    with rep.isolated():
+        render.rule_doc_rendering(rep, repo, "C01-R4")
+    with rep.isolated():
+        writer_rules.rule_paragraph(rep, repo, "C01-R5")
+    with rep.isolated():
+        misc_rules.rule_clean_parameters(rep, repo, "C01-R6")
+    with rep.isolated():
+        atn_rules.rule_doc_tokens(rep, repo, "C01-R7")
